@@ -65,6 +65,11 @@ def cases(tier, rng):
     for mode in ("client-closes", "server-closes"):
         line = "c14d %d %s" % (n, mode)
         cs.append({"line": line, "key": line, "model": False, "tags": {"carrier": "dns-ends", "n": n, "mode": mode}})
+    # connection attempts that end in an error after the physical connection was made (security required and the server cannot upgrade;
+    # the peer answers the handshake with an error status): the client holds none of those connections afterwards
+    for kind in ("insecure", "hserror"):
+        line = "c14sec 20 %s" % kind
+        cs.append({"line": line, "key": line, "model": False, "tags": {"carrier": "tcp", "n": 20, "mode": "failed-attempts-" + kind}})
     # the physical session is lost while the server is away: local connections arriving meanwhile must each end (fail) in bounded time -
     # a connection that neither connects nor fails holds its goroutine and its socket for ever - and service resumes afterwards
     line = "c16 0 none 1 oksecure conn wait -1000 conn conn conn conn wait -1001 conn"
@@ -120,6 +125,16 @@ def oracle(case, impl):
     if case["line"].startswith("c02h "):
         return _h.oracle(case, impl, "reclamation")
     t = case["tags"]
+    if t["mode"].startswith("failed-attempts"):
+        p = impl.split()
+        if not p or p[0] != "attempts":
+            return [("crash;carrier=tcp", "scenario failed to run: " + impl[:150])]
+        f = dict(zip(p[0::2], p[1::2]))
+        if int(f["failed"]) != t["n"]:
+            return [("crash;carrier=tcp", "the attempts were meant to fail: " + impl)]
+        if int(f["held"]) > 0:
+            return [("connections-held-after-failed-attempts;" + t["mode"][16:], "%s of %d physical connections made for attempts that failed are still held by the client (%s)" % (f["held"], t["n"], case["line"]))]
+        return []
     if t["mode"] == "server-away":
         p = impl.split()
         if not p or p[0] in ("panic", "died", "timeout", "harness-error"):
